@@ -885,9 +885,11 @@ def _corpus(model, extra):
     for prg, factsets in [(p_, f_) for p_, f_ in CORPUS[trait]] * 1:
       for traits in selections:
         try:
-            new = optimise(prg, traits)
+            new = optimise(prg, traits, limit_s=30)
         except Exception as e:  # pylint: disable=broad-except
             problems.append({"program": prg, "traits": traits, "exception": repr(e)})
+            if type(e).__name__ == "DidNotReturn":
+                break  # do not wait for every other program as well
             continue
         for facts in factsets:
             n += 1
@@ -1142,9 +1144,11 @@ def _generated(model, extra):
             skipped += 1
             continue
         try:
-            new = optimise(prg, [] if trait == "none" else [trait])
+            new = optimise(prg, [] if trait == "none" else [trait], limit_s=30)
         except Exception as e:  # pylint: disable=broad-except
             problems.append({"program": prg, "traits": [trait], "exception": repr(e)})
+            if type(e).__name__ == "DidNotReturn":
+                break  # do not wait for every other program as well
             continue
         for f, a in zip(factsets, src):
             done += 1
